@@ -19,6 +19,7 @@ SPEC = {
         "argument parsing (field.ParseArguments) is outside the model of PrepareQuery (C18); integer arguments between 2^53 and 2^63 are outside the generator",
         "Flatten is compared on directive-free queries only (directive semantics at Flatten time belongs to C19)",
         "user computations terminate (OneShot: ComputeFinish is always enabled while computing); Go scheduler fairness",
+        "panicking user code is placed in every kind of resolver (plain, Expensive, batch, batch with fallback, the paginated resolver, its sort and filter fields in plain/Expensive/batch form); middlewares and MakeCtx are outside the statement (known findings, generated only on request)",
     ],
     "manifest": {
         "text": "Coq theorems (Props/C15.v): the repaired conversion of graphql-go's AST never crashes for any AST and variable map and any Go map order (the original does: witness); detectConflicts and PrepareQuery of the original code need >= 2^n visits on a family of 3n+3 nodes (refutation of polynomial cost, by induction); the repaired detectConflicts makes at most 1 + (nodes of the query) visits for every document and the memoised PrepareQuery at most K*(1 + |selection| + |types|*|fragments|) calls; Flatten and PrepareQuery cannot crash on any query Parse returned (the original Flatten can: witness accepted by PrepareQuery); a panicking resolver changes nothing but its own request in the connection model; in the LTS of the one-shot handlers the original has a reachable dead state (cancelled before the first run), the repaired one has no reachable deadlock and a decreasing measure. On every run the model is evaluated on graphql-go's real ASTs of generated documents and compared with graphql.Parse / Flatten / hook visit counts, and the oracle (no panic or process death, visits <= 64*nodes, failing request gets exactly one sanitised error while other subscriptions keep updating, cancelled requests return within 2 s, goroutines back to baseline) runs on six input streams with every case in a child process.",
